@@ -3,20 +3,47 @@
 path_set,path_next,path_last,path_add,path_del}.c, node/node_locate.c, meta/meta_set.c, meta/meta_new.c, mpt++/config.cpp).
 
 Case grammar (one line, id added by vcheck):
-  G|R|J <nv> <pathspec>*nv <no> <pathspec>*no <op>...
-      G = process-global configuration (handle 0) and nv sub-tree views on base paths (handles 1..nv),
-      R = private C++ mpt::config::root, J = raw config_item array (mpt_config_item_reserve / _query, lazy removal);
-      the <no> pathspecs are the observation points queried after EVERY operation;
-      op: a <pathspec> <valuehex|->   assign        r <pathspec>   remove        d <pathspec>   (J) mark unused
-  P|Q <sephex> <assignhex> <op>...     path operations on one mpt path (Q: through the C++ mpt::path methods set/add/del)
+  G|H|R|X|J <nv> <pathspec>*nv <no> <pathspec>*no <op>...
+      G = process-global configuration (handle 0) and nv sub-tree views on base paths (handles 1..nv) through the C
+          interface (mpt_config_set / mpt_config_query / mpt_config_getp / mpt_config_get, metatype side of the handles),
+      H = the same store as C++ sees it (config::global, config::set / del / get<T>, config::environ),
+      R = private C++ mpt::config::root through the virtual interface and config::get(path, type, ptr),
+      X = the same through the wrappers config::set / del / get<T> / environ,
+      J = raw config_item array (mpt_config_item_reserve / _query, lazy removal);
+      the <no> pathspecs are the observation points queried after EVERY operation (element as a query handler sees
+      it / existence / value as vector of char / value as 's' [/ value through the '.'-string accessor]);
+      op: a <pathspec> <valuehex|->   assign        r <pathspec>   remove
+          d <pathspec>   (J) mark unused, (H, X) config::del with -1 / full / short explicit length
+          z <pathspec>   (R, X) assign without value      y <pathspec>   (G) remove(NULL) on the handle
+          l <pathspec>   query with a handler that walks the collection it receives (and one that refuses the first item)
+          n <pathspec>   (G) the handle converted to a node pointer     k <pathspec>   (G) metatype side of the handle, clone
+          env <sephex> <patternhex> <hex,hex,...>   (H, X) config::environ with an explicit variable list
+  P|Q <sephex> <assignhex> <op>...     path operations on one mpt path (Q: through the C++ mpt::path methods)
       op: set <str> <len|-1> | next | last | del | add <n> | post <hex> | bin
-  pathspec = <handle>:<sephex>:<str>,  str = "~" (NULL) | "-" (empty string) | hex of the C string
+          | clr (mpt_path_invalidate / path::clear_data; "clrx": clear_data as long as it only cuts the array)
+          | cp (copy construction) | asg (assignment to itself and into another path) | fork (the original stays alive)
+  T                                     config::pointer_traits()
+  pathspec = <handle>:<sephex>:<str>[:<endhex>],  str = "~" (NULL) | "-" (empty string) | hex of the C string;
+             endhex (kind G, operations a / r): the end character handed to mpt_config_set
 """
 import itertools, os
 from vcheck import (DiffProperty, ASAN_ENV, VERIF, build_harness, build_model, run_cases)
 
 SEPS = [0x2e, 0x2f, 0x3a]
-ARITY = {"a": 2, "r": 1, "d": 1, "set": 2, "next": 0, "last": 0, "del": 0, "add": 1, "post": 1, "bin": 0}
+ARITY = {"a": 2, "r": 1, "d": 1, "z": 1, "l": 1, "n": 1, "k": 1, "y": 1, "env": 3,
+         "set": 2, "next": 0, "last": 0, "del": 0, "add": 1, "post": 1, "bin": 0, "clr": 0, "clrx": 0, "cp": 0, "asg": 0, "fork": 0}
+
+# Two defects of /repo found by driving mpt::path copies (docs/notes_C10.md, "open defects"); each constant
+# is to be set to True when the patch named next to it has been committed to /repo, nothing else changes.
+#   PATCHED_PATH_ADD_SHARED:   docs/C10_path_add_shared.diff  (mpt_path_add writes separators into an array that
+#       is shared with a copy of the path).  While False no history keeps the original of a copied path alive
+#       ("fork" operations are not generated); replay: docs/C10_path_add_shared.replay.json
+#   PATCHED_CLEAR_DATA_SHARED: docs/C10_clear_data_shared.diff (mpt::path::clear_data cuts an array shared with a
+#       copy).  While False clear_data is only run on unshared paths and modelled as content::set_length ("clrx":
+#       KeepPost flag stays); once True it is modelled as mpt_path_invalidate ("clr") and also run on forked
+#       paths; replay: docs/C10_clear_data_shared.replay.json
+PATCHED_PATH_ADD_SHARED = False
+PATCHED_CLEAR_DATA_SHARED = False
 
 
 def hx(bs):
@@ -31,6 +58,9 @@ def unhex(t):
     return b"" if t == "-" else bytes.fromhex(t)
 
 
+CXX_KINDS = ("R", "X", "H", "Q", "T")
+
+
 class C10(DiffProperty):
     pid = "C10"
     claimed = True
@@ -42,54 +72,98 @@ class C10(DiffProperty):
     harness_cxx = "c10_root.cpp"
     libs = ["mptcore"]
     harness_env = dict(ASAN_ENV, ASAN_OPTIONS=ASAN_ENV["ASAN_OPTIONS"] + ":symbolize=0")
-    rule = ("a case = one store (G: process-global configuration in a fresh process + up to 2 sub-tree views, R: C++ config::root, "
-            "J: raw config_item array with lazy removal and decoy items written behind _used) + a set of observation paths + a history of "
-            "assign/remove operations; after EVERY operation EVERY observation path is queried (value / present / absent) and the whole "
-            "tree or slot array is dumped; or (P) one mpt path + a history of set/next/last/del/add/post/bin, walked element by element "
-            "after every operation. quick: every history of length <= 3 over 5 paths x {assign, remove} for G, R and J (exhaustive), "
-            "every string of length <= 4 over {sep, assign, 'a'} through path_set (string and explicit lengths) with next/last, "
-            "plus random histories of 4..14 operations over path sets with shared prefixes, prefix-of-another paths, repeated and "
-            "empty elements, separators . / :, element lengths 0,1,2,254,255,256,257 and value lengths 0,1,5,249,250,254,255,256,300,1000; "
-            "random path build/walk histories in separator and binary mode with element lengths 0,1,127,128,254..257. "
-            "A case is non-trivial when it has a removal, a long element/value, an empty element, a view or a path operation beyond set; "
-            "distinct = distinct case text")
+    rule = ("a case = one store (G: process-global configuration in a fresh process + up to 2 sub-tree views through the C interface, "
+            "H: the same through the C++ classes config::global / config::set / del / get<T>, R: C++ config::root through the virtual "
+            "interface, X: config::root through its wrappers, J: raw config_item array with lazy removal and decoy items written behind "
+            "_used) + a set of observation paths + a history of operations: assign, remove (also config::del with -1 / full / short "
+            "explicit length, mpt_config_set with an end character), assignment without value (R, X), remove(NULL) / conversion to a node "
+            "pointer / type list, addref, clone of a handle (G), listing through the collection a query handler receives (with a second "
+            "handler that refuses the first item), config::environ with an explicit variable list (H, X); after EVERY operation EVERY "
+            "observation path is read five ways (query handler; mpt_config_getp / config::get with type 0, vector of char, 's'; "
+            "mpt_config_get / get<T>(const char *) for '.'-separated strings) and the whole tree or slot array is dumped (H: through "
+            "collectionEach); or (P / Q) one mpt path + a history of set/next/last/del/add/post/bin/clear/copy/assign, walked element by "
+            "element after every operation. quick: every history of length <= 3 over 5 paths x {assign, remove} for G, R and J and of "
+            "length <= 2 for H and X (exhaustive), every history of length <= 3 over 8 operations of one view and the global handle "
+            "around it, every string of length <= 4 over {sep, assign, 'a'} through path_set (string and explicit lengths) with "
+            "next/last, plus random histories of 4..14 operations over path sets with shared prefixes, prefix-of-another paths, repeated "
+            "and empty elements, separators . / :, element lengths 0,1,2,254,255,256,257 and value lengths "
+            "0,1,5,249,250,254,255,256,300,1000; random path build/walk histories in separator and binary mode with element lengths "
+            "0,1,127,128,254..257. A case is non-trivial when it has a removal, a long element/value, an empty element, a view, one of "
+            "the caller-level operations or a path operation beyond set; distinct = distinct case text")
     modelled = ("mptcore/config/{path_set,path_next,path_last,path_add,path_del,node_query,node_assign,config_global,config_set,config_get,"
                 "config_item_query,config_item_reserve}.c, node/node_locate.c (forward search by name), meta/meta_set.c + meta_new.c (text values, "
-                "the 8-bit size limit of the basic metatype) and config::root of mpt++/config.cpp transcribed in coq/C10/ConfigModel.v; the node "
+                "the 8-bit size limit of the basic metatype) and mpt++/config.cpp (config::root assign / remove / query incl. the NULL forms, "
+                "config::set / get / del, path::clear_data, path copies) transcribed in coq/C10/ConfigModel.v; the caller-level entry points "
+                "(mpt_config_set with end character, mpt_config_getp / mpt_config_get with the requested conversion, config::del with explicit "
+                "length, conversion of a view to its node, remove(NULL), the listing handed to a query handler) are compositions of "
+                "mpt_path_set and the interface calls (wstep / xstep); the node "
                 "tree is a pure ordered forest (prev/next/parent links are C14's subject, the harness checks them and reports a flag), "
-                "identifiers are byte strings with the 16-bit length limit (storage is C16's subject), buffers/arrays are lists (C04), "
-                "values are text only; mpt_path_addchar/valid/invalidate (parser side) are reduced to 'append post bytes'; allocation "
-                "failures and the path == NULL forms of the interface are not modelled")
+                "identifiers are byte strings with the 16-bit length limit (storage is C16's subject), buffers/arrays are lists (C04: the "
+                "model has no sharing, so a copied mpt::path is a value; that copies do not disturb each other is compared with the "
+                "specification only), values are text only and a conversion is 's' or vector of char (which conversions a metatype offers: "
+                "up to 249 bytes both, longer text in the C store vector only, in the C++ store both); mpt_path_addchar/valid (parser side) "
+                "are reduced to 'append post bytes'; config::environ is expanded by the driver into the assignments its documentation "
+                "promises (lower-cased names matching the pattern, in order, stop at the first refusal; fnmatch reduced to * and ?); "
+                "handle facts (type list, addref, clone, query(NULL), assign(NULL, ..)) are constants of the driver; allocation failures, "
+                "assignment without value through the C store (mpt_meta_set(.., NULL): iterator rewind or default metatype) are not modelled")
     trusted = ["harness/c10_store.c walks the node tree from the file-local nodeGlobal (config_global.c is #included) and the raw item "
                "arrays slot by slot, independently of the library; it writes decoy items into the unused capacity behind _used",
-               "harness/c10_root.cpp drives config::root through the virtual config interface and mpt::path through its methods (kind Q); the UBSan vptr check is suppressed "
-               "there (harness/c10_ubsan.supp) because mpt++ deliberately views C-allocated buffers as C++ objects",
-               "text of a value is read through the vector-of-char conversion (the buffer metatype for long text offers no 's' conversion)"]
-    level_text = ("proof: Coq theorems (coq/C10/Properties.v, all closed under the global context) "
-                  "C10_path_elements / C10_path_elements_string / C10_string_key / C10_path_next_element (mpt_path_set over ANY byte string or C "
-                  "string, any separator, any assign character, any element lengths, yields a well-formed path and repeated mpt_path_next "
-                  "visits exactly the separator-delimited components up to the assign character, each read from inside the storage), "
+               "harness/c10_root.cpp drives config::root through the virtual config interface (kind R) and through config::set / del / get<T> / "
+               "environ (kind X), the process-global store through config::global + the same wrappers (kind H: the tree is read back through the "
+               "collection of a query handler, link fields are not visible there) and mpt::path through its methods (kind Q: the original of a "
+               "forked path is re-read after every operation on the copy); the UBSan vptr check is suppressed "
+               "there (harness/c10_ubsan.supp) because mpt++ deliberately views C-allocated buffers as C++ objects; config::root is destroyed "
+               "at the end of every R / X case (ASan)",
+               "text of a value is read through the vector-of-char conversion (the buffer metatype for long text offers no 's' conversion)",
+               "ml/c10_driver.ml: expansion of config::environ, the constant handle facts, the glob matcher for * and ?"]
+    level_text = ("proof: Coq theorems (coq/C10/Properties.v, 21, all closed under the global context) "
+                  "C10_path_elements / C10_path_elements_string / C10_string_key / C10_string_key_end / C10_del_key / C10_path_next_element "
+                  "(mpt_path_set over ANY byte string or C string, any separator, any assign / end character, any explicit length, any element "
+                  "lengths, yields a well-formed path and repeated mpt_path_next visits exactly the separator-delimited components up to the "
+                  "assign character, each read from inside the storage), "
                   "C10_path_rebuild (adding the elements one by one with mpt_path_add, separator mode, gives a path that walks back to exactly "
-                  "those elements, every element length), C10_config_refines_map + C10_step_refines (after ANY history of assign / remove / "
+                  "those elements, every element length), C10_clear_keeps_elements (mpt_path_invalidate / path::clear_data drop the post data "
+                  "and nothing else), C10_config_refines_map + C10_step_refines (after ANY history of assign / remove / "
                   "query through the process-global configuration and through sub-tree views on arbitrary base paths, every result class and "
                   "every queried entry equals the history specification: the value most recently assigned to exactly that path, "
-                  "present-without-value for a mere prefix, absent otherwise), C10_root_refines_map (the same for the C++ config::root slot "
-                  "arrays with unused-slot reuse, eager and lazy removal), C10_assign_frame (an assignment changes the reading of its own key "
+                  "present-without-value for a mere prefix, absent otherwise), C10_api_refines_map + C10_api_step_refines (the same for ANY "
+                  "history of the caller-level entry points: mpt_config_set / config::set on strings with separator and end character, "
+                  "config::del with explicit length, mpt_config_getp / mpt_config_get / config::get with type 0 / 's' / vector of char, "
+                  "conversion of a view to its node, remove(NULL), listing), C10_getp_reads_spec / C10_get_reads_spec (in every reachable state "
+                  "the value accessors return exactly the text the specification holds for that key, MissingData for an absent or value-less "
+                  "one), C10_listing_reads_store / C10_root_listing_reads_store (the collection a query handler receives is the store beneath "
+                  "the queried element), C10_root_refines_map + C10_root_api_refines_map (the C++ config::root slot "
+                  "arrays with unused-slot reuse, eager and lazy removal, assignment without value, and its wrappers config::set / del / get), "
+                  "C10_assign_frame (an assignment changes the reading of its own key "
                   "only and makes its prefixes present), C10_remove_subtree_only and C10_clear_beneath_only (a removal hides exactly the key and "
                   "what is beneath it); no bound on path length, element length, tree size or history length; the model is tied to the code on "
-                  "every run by differential execution under ASan/UBSan (state dumps + every observation path queried after every operation)")
+                  "every run by differential execution under ASan/UBSan (state dumps + every observation path read five ways after every operation)")
     level_note = ("trusted: Coq kernel; hand transcription of the C/C++ files (validated by the correspondence run, not verified); extraction "
                   "and OCaml driver; harnesses. The theorems hold for the tree WITH the 15 fix: commits of branch verif-C10 (path_set string end, "
                   "path_last offset / 8-bit length / binary start / signed length, path_add 8-bit first / binary first after consumption, "
                   "path_del array cut, meta_new argument order / size threshold, first global element unlink, config_item_query _size, "
-                  "config_item_reserve cut length, config::root::remove set_name, mpt::path::add argument) - see docs/notes_C10.md. Guards: element names up to 65534 "
+                  "config_item_reserve cut length, config::root::remove set_name, mpt::path::add argument) - see docs/notes_C10.md. "
+                  "OPEN in /repo (found by driving mpt::path copies, not yet committed, generator switches PATCHED_* in props/c10.py): "
+                  "mpt_path_add writes separators into an array shared with a copy of the path (docs/C10_path_add_shared.diff, replay "
+                  "docs/C10_path_add_shared.replay.json) and path::clear_data cuts a shared array (docs/C10_clear_data_shared.diff, replay "
+                  "docs/C10_clear_data_shared.replay.json); until then no history keeps the original of a copied path alive. "
+                  "Guards: element names up to 65534 "
                   "bytes (16-bit identifier length; longer names are refused after the nodes in front were created - Example "
-                  "C10_name_limit_witness); config::root reports the empty path as absent. NOT proved, only cross-checked against the abstract "
+                  "C10_name_limit_witness); config::root reports the empty path as absent; config::del lengths up to strlen + 1. "
+                  "Specification detail: which conversions a stored text offers is part of get_view - text of 250 bytes and more in the C store "
+                  "is not available as 's' (mpt_config_get(.., 's', ..) reports BadType; vector of char works; Example C10_long_value_views). "
+                  "NOT proved, only cross-checked against the abstract "
                   "path specification astep by the correspondence run: binary-length mode (SepBinary) of path_next/add/del/last, mpt_path_last "
-                  "and mpt_path_del, path_add on paths with an offset. Link fields of the node tree (checked by the harness, flag in every "
+                  "and mpt_path_del, path_add on paths with an offset. Compared with the specification only (no model of the mechanism): that "
+                  "copies of an mpt::path sharing one array do not disturb each other (the model has values, not references), "
+                  "config::environ (expanded by the driver), the metatype facts of a handle, config::pointer_traits. Not driven: "
+                  "type_properties<config_item>::id / traits of mpt++/config.cpp (declared inline in config.h, defined out of line and never "
+                  "emitted: no program can link against them), assignment without value through the C store, the refusal branches behind a "
+                  "65535-byte name. Link fields of the node tree (checked by the harness, flag in every "
                   "observation), identifier storage and buffer management are other properties' subjects (C14, C16, C04).")
     technique = "Coq refinement proof (byte paths + node tree / item slots -> finite map keyed by element lists) + differential correspondence check"
-    assumptions = ["allocation succeeds", "values are text (C strings)", "element names are at most 65534 bytes"]
+    assumptions = ["allocation succeeds", "values are text (C strings)", "element names are at most 65534 bytes",
+                   "config::del is called with a length of at most strlen + 1"]
 
     # ------------------------------------------------------------------ running: two harnesses
     def evaluate(self, cases, workdir, tagsuffix=""):
@@ -97,8 +171,8 @@ class C10(DiffProperty):
         hr = build_harness(self.harness_cxx, ["mptcore", "mpt++"])
         mx = build_model(self.mlname, self.driver, self.extract_vo)
         ided = ["c%d %s" % (i, c) for i, c in enumerate(cases)]
-        cc = [c for c in ided if c.split()[1] not in ("R", "Q")]
-        rc = [c for c in ided if c.split()[1] in ("R", "Q")]
+        cc = [c for c in ided if c.split()[1] not in CXX_KINDS]
+        rc = [c for c in ided if c.split()[1] in CXX_KINDS]
         I = {}
         errs = []
         if cc:
@@ -124,13 +198,24 @@ class C10(DiffProperty):
             return ("E" if f[0].startswith("-") else f[0]) + "|" + f[4]
         if len(f) == 2 and f[0].startswith("-"):
             return "E|" + f[1]
-        if len(f) == 4:          # store case: result class, link flag, observations (not the dump)
-            return "|".join(f[:3])
+        if len(f) in (3, 4):     # store case: result class, link flag, observations (not the dump)
+            rc = f[0]
+            if rc.startswith("L"):       # listing: the specification only says whether there is something to list
+                rc = "LA" if rc == "LA" else "LP"
+            elif rc.startswith("Ny"):    # node handed out: which one is the model's business
+                rc = "Ny"
+            elif rc.startswith("vr"):    # bool wrapper around remove: only "store empty" shows
+                rc = "vr"
+            elif rc.startswith("y"):     # remove(NULL): 0 or BadOperation for an empty store
+                rc = "y"
+            return "|".join([rc] + f[1:3])
         return tok
 
     # ------------------------------------------------------------------ case structure
     def split(self, case):
         t = case.split()
+        if t[0] == "T":
+            return t[:1], []
         if t[0] in ("P", "Q"):
             hdr, rest = t[:3], t[3:]
         else:
@@ -152,7 +237,7 @@ class C10(DiffProperty):
             yield self.join(hdr, ops[:k] + ops[k + 1:])
         for k in range(1, len(ops)):
             yield self.join(hdr, ops[:k])
-        if hdr[0] not in ("P", "Q"):
+        if hdr[0] not in ("P", "Q", "T"):
             nv = int(hdr[1])
             no = int(hdr[2 + nv])
             obs = hdr[3 + nv:]
@@ -171,6 +256,8 @@ class C10(DiffProperty):
     def classify(self, case):
         hdr, ops = self.split(case)
         cl = {"kind:" + hdr[0]}
+        if hdr[0] == "T":
+            return cl
         if hdr[0] in ("P", "Q"):
             for o in ops:
                 cl.add("p:" + o[0])
@@ -186,9 +273,19 @@ class C10(DiffProperty):
             cl.add("views")
         nontriv = False
         for o in ops:
+            if o[0] == "env":
+                cl.add("environ")
+                nontriv = True
+                continue
             s = o[1].split(":")
             body = s[2]
             sep = "%s" % s[1]
+            if o[0] in ("l", "n", "k", "z", "y"):
+                cl.add({"l": "listing", "n": "node-conversion", "k": "handle-metatype", "z": "assign-no-value",
+                        "y": "remove-null-path"}[o[0]])
+                nontriv = True
+            if o[0] == "d" and hdr[0] in ("H", "X"):
+                cl.add("del-wrapper")
             if o[0] in ("r", "d"):
                 cl.add("remove")
                 nontriv = True
@@ -196,6 +293,9 @@ class C10(DiffProperty):
                 cl.add("null-path")
             elif body == "-" or body.startswith(sep) or body.endswith(sep) or (sep + sep) in body:
                 cl.add("empty-element")
+                nontriv = True
+            if len(s) > 3:
+                cl.add("end-character")
                 nontriv = True
             if len(body) >= 2 * 254:
                 cl.add("long-element")
@@ -254,7 +354,7 @@ class C10(DiffProperty):
         paths = self.gen_paths(rng, sep, rng.choice([3, 4, 5, 6]))
         other = rng.choice([s for s in SEPS if s != sep])
         views = []
-        if kind == "G" and rng.random() < 0.6:
+        if kind in ("G", "H") and rng.random() < 0.6:
             for _ in range(rng.choice([1, 1, 2])):
                 views.append((sep, rng.choice(paths)))
         obs = [(0, sep, p) for p in paths]
@@ -268,6 +368,7 @@ class C10(DiffProperty):
             obs.append((0, sep, b"zz"))
             obs.append((0, sep, rng.choice(paths) + bytes([sep]) + b"zz"))
         ops = []
+        tree = kind in ("G", "H")
         for _ in range(rng.choice([4, 6, 8, 10, 14])):
             r = rng.random()
             if views and rng.random() < 0.4:
@@ -281,6 +382,30 @@ class C10(DiffProperty):
                     if b"\0" in p:
                         p = rng.choice(paths)
             s = spec(h, sep if rng.random() < 0.95 else other, p)
+            x = rng.random()
+            if kind != "J" and x < 0.22:
+                # the caller-level forms beyond assign / remove
+                y = rng.random()
+                if y < 0.40:
+                    ops += ["l", s]                                   # listing through the query handler
+                elif y < 0.55 and kind == "G":
+                    ops += ["n", spec(h, sep, None)]                  # handle as node pointer
+                elif y < 0.63 and kind == "G":
+                    ops += ["k", spec(h, sep, None)]                  # metatype side of the handle, clone
+                elif y < 0.72 and kind == "G":
+                    ops += ["y", spec(h, sep, None)]                  # remove(NULL): value of the base element
+                elif y < 0.80 and kind in ("R", "X"):
+                    ops += ["z", s]                                   # assignment without value
+                elif kind in ("H", "X"):
+                    ops += self.gen_env(rng, sep, paths)
+                else:
+                    ops += ["l", spec(h, sep, None)]
+                continue
+            if kind == "G" and p is not None and rng.random() < 0.12:
+                # mpt_config_set(conf, "path=junk", val, sep, '='): the end character cuts the string
+                e = rng.choice(b"=;")
+                if e not in p and e != sep:
+                    s = spec(h, sep, p + bytes([e]) + rng.choice([b"", b"zz", bytes([sep]) + b"q"])) + ":%02x" % e
             if r < 0.6:
                 ops += ["a", s, hx(self.gen_value(rng))]
             elif kind == "J":
@@ -288,10 +413,31 @@ class C10(DiffProperty):
                     ops += ["a", s, hx(self.gen_value(rng))]
                 else:
                     ops += ["d", s]
+            elif kind in ("H", "X") and rng.random() < 0.5:
+                ops += ["d", s]                                       # config::del
             else:
                 ops += ["r", s]
         hdr = [kind, str(len(views))] + [spec(0, v[0], v[1]) for v in views] + [str(len(obs))] + [spec(*o) for o in obs]
         return " ".join(hdr + ops)
+
+    def gen_env(self, rng, sep, paths):
+        """config::environ with an explicit variable list: names spell paths of the case"""
+        ents = []
+        for _ in range(rng.choice([1, 2, 3, 4])):
+            r = rng.random()
+            name = rng.choice(paths)
+            if r < 0.15:
+                name = b"mpt" + bytes([sep]) + name
+            if b"=" in name or b"\0" in name or b"," in name or len(name) > 600:
+                name = b"a"
+            if rng.random() < 0.5:
+                name = name.upper()
+            if r > 0.9:
+                ents.append(name)                                     # no '=': skipped
+            else:
+                ents.append(name + b"=" + self.gen_value(rng))
+        pat = rng.choice([b"*", b"*", b"*", b"a*", b"mpt" + bytes([sep]) + b"*", b"?", b"*b"])
+        return ["env", "%02x" % (sep if rng.random() < 0.9 else 0), hx(pat), ",".join(hx(e) for e in ents)]
 
     def exhaustive_store(self, kind, depth):
         paths = [b"a", b"b", b"a.a", b"a.b", b""]
@@ -302,7 +448,22 @@ class C10(DiffProperty):
         single = []
         for i, p in enumerate(paths):
             single.append(["a", spec(0, 0x2e, p), "3%d" % i])
-            single.append(["d" if kind == "J" else "r", spec(0, 0x2e, p)])
+            single.append(["d" if kind == "J" or (kind in ("H", "X") and i % 2) else "r", spec(0, 0x2e, p)])
+        out = []
+        for n in range(1, depth + 1):
+            for seq in itertools.product(single, repeat=n):
+                out.append(" ".join(hdr + [t for o in seq for t in o]))
+        return out
+
+    def exhaustive_views(self, depth):
+        """every history of length <= depth over the operations of one sub-tree view (base a.b) and the global
+        handle around it: assign / remove through both, remove(NULL), node conversion, listing, clone"""
+        base = spec(0, 0x2e, b"a.b")
+        obs = [spec(0, 0x2e, b"a"), base, spec(1, 0x2e, None), spec(1, 0x2e, b"c"), spec(0, 0x2e, b"a.b.c")]
+        hdr = ["G", "1", base, str(len(obs))] + obs
+        single = [["a", spec(1, 0x2e, None), "31"], ["a", spec(1, 0x2e, b"c"), "32"], ["y", spec(1, 0x2e, None)],
+                  ["n", spec(1, 0x2e, None)], ["r", spec(1, 0x2e, None)], ["r", spec(0, 0x2e, b"a")],
+                  ["l", spec(0, 0x2e, b"a")], ["k", spec(1, 0x2e, None)]]
         out = []
         for n in range(1, depth + 1):
             for seq in itertools.product(single, repeat=n):
@@ -343,7 +504,7 @@ class C10(DiffProperty):
             else:
                 ops += ["set", hx(s), str(rng.randrange(0, len(s) + 1))]
             for _ in range(rng.choice([1, 2, 4, 6])):
-                ops += [rng.choice(["next", "next", "last", "del"])]
+                ops += [rng.choice(["next", "next", "last", "del", "cp", "asg", "clr"] + (["fork"] if PATCHED_PATH_ADD_SHARED else []))]
         else:
             if rng.random() < 0.4:
                 ops += ["bin"]
@@ -355,28 +516,76 @@ class C10(DiffProperty):
                     if len(e) + len(extra) == 0:
                         extra = b"r"
                     ops += ["post", hx(e + extra), "add", str(len(e) if rng.random() < 0.9 else len(e) + len(extra) + rng.choice([0, 1]))]
-                elif r < 0.8:
+                elif r < 0.72:
                     ops += ["del"]
+                elif r < 0.80:
+                    # post data, then drop it again / copy the path / keep the original alive
+                    e = elem()
+                    ops += ["post", hx(e + b"pq" + elem()), rng.choice(["clr", "cp", "asg"] + (["fork", "fork"] if PATCHED_PATH_ADD_SHARED else []))]
+                    if ops[-1] != "clr":
+                        # go on with the copy while post data is still there
+                        ops += rng.choice([["add", str(len(e))], ["add", str(len(e))], ["clr"], ["del"], ["next"], []])
                 elif r < 0.93:
                     ops += ["next"]
                 else:
                     ops += ["last"]
         return " ".join(["P", "%02x" % sep, "%02x" % asg] + ops)
 
+    def gen_forkcase(self, rng):
+        """an mpt::path with elements and post data is copied; the copy is changed while the
+        original stays alive and must go on denoting what it did (kind Q only)"""
+        sep = rng.choice(SEPS)
+        ops = ["bin"] if rng.random() < 0.25 else []
+        def el():
+            n = rng.choice([1, 1, 2, 3, 5, 40] if rng.random() < 0.9 else [127, 254, 255])
+            return bytes(rng.choice(b"abc") for _ in range(n))
+        for _ in range(rng.choice([0, 1, 2, 3])):
+            e = el()
+            ops += ["post", hx(e + b"r"), "add", str(len(e))]
+        e = el()
+        ops += ["post", hx(e + b"pq" + el() + b"s" + el()), "fork"]
+        for _ in range(rng.choice([1, 1, 2, 3])):
+            ops += rng.choice([["add", str(len(e))], ["add", str(len(e))], ["add", "1"], ["clr"], ["del"], ["next"],
+                               ["post", hx(el() + b"t")], ["cp"], ["asg"], ["fork"]])
+        return " ".join(["Q", "%02x" % sep, "00"] + ops)
+
     def generate(self, rng, tier):
         cases = []
         depth = 3 if tier == "quick" else 4
         for kind in "GRJ":
             cases += self.exhaustive_store(kind, depth)
+        # the C++ views of the same stores (wrappers config::set / del / get<T>): one level less
+        for kind in "HX":
+            cases += self.exhaustive_store(kind, depth - 1)
+        cases += self.exhaustive_views(depth)
         cases += self.exhaustive_paths()
+        cases.append("T")
         n = 700 if tier == "quick" else 20000
         for i in range(n):
-            cases.append(self.gen_store(rng, "GRJ"[i % 3]))
+            cases.append(self.gen_store(rng, "GHRXJGHRX"[i % 9]))
         for i in range(n):
             c = self.gen_pathcase(rng)
             # every fourth path history goes through the C++ mpt::path methods (set / add / del)
             cases.append("Q" + c[1:] if i % 4 == 3 else c)
-        return cases
+        if PATCHED_PATH_ADD_SHARED:
+            for i in range(150 if tier == "quick" else 4000):
+                cases.append(self.gen_forkcase(rng))
+        return [self.clear_form(c) for c in cases]
+
+    def clear_form(self, case):
+        """mpt::path::clear_data (kind Q) as it is in /repo: "clrx" while unpatched (and never on a forked path)"""
+        if not case.startswith("Q ") or PATCHED_CLEAR_DATA_SHARED or " clr" not in case:
+            return case
+        out, forked = [], False
+        for t in case.split():
+            if t == "fork":
+                forked = True
+            if t == "clr":
+                if forked:
+                    continue
+                t = "clrx"
+            out.append(t)
+        return " ".join(out)
 
 
 PROP = C10()
